@@ -127,7 +127,11 @@ def cmd_check(args):
     # only clause-named obligations are pinned (bounds/assert names carry source text and may change harmlessly)
     names_now = sorted({base_name(n) for n, k in kinds.items() if k in ("post", "pre", "inv.init", "inv.preserve", "lemma")})
     if args.update_expected:
-        expected_all[pid] = names_now
+        if args.unit:
+            # a filtered run only adds to / refreshes the pinned set, it never shrinks it
+            expected_all[pid] = sorted(set(expected_all.get(pid) or []) | set(names_now))
+        else:
+            expected_all[pid] = names_now
         with open(os.path.join(HERE, "expected_obligations.json"), "w") as f:
             json.dump(expected_all, f, indent=0, sort_keys=True)
     expected = expected_all.get(pid)
